@@ -416,6 +416,51 @@ def gen_unparse(rng, n, stats):
     return out[:n]
 
 
+def coq_example_cases():
+    """The two invocations of coq/theories/ParseProofs/UnparseExamples.v (pinned by C02_unparse_nonvacuous,
+    C02_indices_nonvacuous, C02_unparse_tree_nonvacuous) as un-parser cases: the expectations below are the values
+    the Coq theorems state for the model; the corpus file corpus/C02/unparse.coq_examples.cases (written once with
+    `python3 -c "from vp.props import c02; print('\\n'.join(c02.coq_example_cases()))"`) makes every run compare
+    the real crate with them."""
+    def arg(i, **kw):
+        a = {"id": i, "flags": set()}
+        a.update(kw)
+        return a
+    one = {"name": b"p", "args": [
+        arg(b"v", short="v", action="count"),
+        arg(b"q", short="q", long=b"qu", action="settrue"),
+        arg(b"o", short="o", long=b"opt", action="append"),
+        arg(b"s", short="s", long=b"set", action="set"),
+        arg(b"m", short="m", long=b"mu", action="append", num=(1, 3), delim=","),
+        arg(b"y", short="y", long=b"yy", action="set", num=(0, 1), dmissing=[b"d"]),
+        arg(b"f"),
+        arg(b"r", num=(1, None))], "groups": [], "subs": [], "settings": [], "aliases": []}
+    toks1 = [b"--qu", b"F", b"-vvoAB", b"--opt===", b"--mu", b"A", b"B,C", b"-vm", b"A", b"-s=", b"R", b"S", b"--yy", b"-v", b"T"]
+    exp1 = collections.OrderedDict([
+        (b"q", {"occ": [[b"true"]], "idx": [1]}), (b"f", {"occ": [[b"F"]], "idx": [2]}),
+        (b"o", {"occ": [[b"AB"], [b"=="]], "idx": [6, 8]}),
+        (b"m", {"occ": [[b"A", b"B", b"C"], [b"A"]], "idx": [10, 11, 12, 15]}),
+        (b"s", {"occ": [[b""]], "idx": [17]}), (b"r", {"occ": [[b"R", b"S"], [b"T"]], "idx": [18, 19, 23]}),
+        (b"y", {"occ": [[b"d"]], "idx": [21]}), (b"v", {"occ": [[b"4"]], "idx": [22]})])
+    run = {"name": b"run", "aliases": [(b"go", True)], "args": [
+        arg(b"x", short="x", action="settrue"), arg(b"n", long=b"name", action="set"), arg(b"f")],
+        "groups": [], "subs": [], "settings": []}
+    two = {"name": b"p", "args": [one["args"][0], one["args"][1], one["args"][2]], "groups": [], "subs": [run],
+           "settings": [], "aliases": []}
+    toks2 = [b"--qu", b"-voA", b"go", b"-x", b"--name=V", b"F"]
+    exp2 = [(collections.OrderedDict([(b"q", {"occ": [[b"true"]], "idx": [1]}), (b"v", {"occ": [[b"1"]], "idx": [2]}),
+                                      (b"o", {"occ": [[b"A"]], "idx": [4]})]), b"run"),
+            (collections.OrderedDict([(b"x", {"occ": [[b"true"]], "idx": [1]}), (b"n", {"occ": [[b"V"]], "idx": [3]}),
+                                      (b"f", {"occ": [[b"F"]], "idx": [4]})]), None)]
+    out = []
+    for c, toks, lv in ((one, toks1, [(exp1, None)]), (two, toks2, exp2)):
+        argv = [b"p"] + toks
+        base = gen_cmd.cmd_sx(c)
+        body = base[:-1] + " (x-expect %s %s))" % (guard(base, argv), expect_sx(lv))
+        out.append("(parse %s (argv%s))" % (body, "".join(" " + hexs(t) for t in argv)))
+    return out
+
+
 # ----------------------------------------------------------------------------- oracles
 def read_expect(case):
     """-> (levels, guard ok?) or None when the case carries no expectation"""
